@@ -17,7 +17,7 @@
 //!                agree), WF (the history satisfies the hypotheses of `par_simulates_revm`)
 //! Every random choice derives from <seed>.
 use grevm::{ParallelBundleState, ParallelState, ParallelTakeBundle, verif::cache as vc};
-use revm::{Database, DatabaseCommit, DatabaseRef};
+use revm::{Database, DatabaseCommit, DatabaseRef, database_interface::DatabaseCommitExt};
 use revm_database::{
     AccountRevert, AccountStatus as DbStatus, BundleAccount, BundleState, RevertToSlot, State,
     TransitionAccount, TransitionState,
@@ -457,7 +457,7 @@ impl Case {
                 OpT::Basic { a, .. } => {
                     cached.insert(*a);
                 }
-                OpT::Incr(v) => v.iter().filter(|(_, x)| *x != 0).for_each(|(a, _)| {
+                OpT::Incr(v) => v.iter().for_each(|(a, _)| {
                     cached.insert(*a);
                 }),
                 OpT::Drain(v) => v.iter().for_each(|a| {
@@ -657,12 +657,13 @@ fn gen_case(r: &mut Rng) -> Case {
                     (a, x)
                 })
                 .collect();
-            for (a, x) in &v {
-                if *x != 0 {
-                    let mut i = sh.cur(&c, *a).unwrap_or_else(InfoT::default_info);
-                    i.bal = i.bal.saturating_add(U256::from(*x));
-                    sh.info.insert(*a, Some(i));
-                }
+            // every listed account is touched (a zero amount too): one left empty is cleared
+            // (a repeated address is computed from the value before the call: the last one wins)
+            let pre: Vec<Option<InfoT>> = v.iter().map(|(a, _)| sh.cur(&c, *a)).collect();
+            for ((a, x), p) in v.iter().zip(pre) {
+                let mut i = p.unwrap_or_else(InfoT::default_info);
+                i.bal = i.bal.saturating_add(U256::from(*x));
+                sh.info.insert(*a, if i.is_empty() { None } else { Some(i) });
             }
             c.ops.push(OpT::Incr(v));
         }
@@ -672,7 +673,7 @@ fn gen_case(r: &mut Rng) -> Case {
             for a in &v {
                 let mut i = sh.cur(&c, *a).unwrap_or_else(InfoT::default_info);
                 i.bal = U256::ZERO;
-                sh.info.insert(*a, Some(i));
+                sh.info.insert(*a, if i.is_empty() { None } else { Some(i) });
             }
             c.ops.push(OpT::Drain(v));
         }
@@ -1114,44 +1115,32 @@ fn run_revm(case: &Case, observe: bool) -> RunOut {
                     }
                 }
                 OpT::Incr(v) => {
-                    // the loop `State::increment_balances` had before revm-database dropped it
-                    let mut transitions = Vec::new();
-                    for (a, x) in v {
-                        if *x == 0 {
-                            continue;
+                    // `State::increment_balances` = the default method of `DatabaseCommitExt`
+                    let saved = if observe { Some(st.transition_state.replace(TransitionState::default())) } else { None };
+                    DatabaseCommitExt::increment_balances(&mut st, v.iter().map(|(a, x)| (addr(*a), *x))).unwrap();
+                    match saved {
+                        Some(saved) => {
+                            let produced = st.transition_state.take().unwrap();
+                            st.transition_state = saved;
+                            write!(o, " T{}", translist_tok(produced.transitions.iter())).unwrap();
+                            st.apply_transition(produced.transitions);
                         }
-                        let acc = st.load_cache_account(addr(*a)).unwrap();
-                        transitions.push((addr(*a), acc.increment_balance(*x).expect("balance is not zero")));
+                        None => o.push_str(" T*"),
                     }
-                    if observe {
-                        // same address twice in one list: print what the map keeps (as for ParallelState)
-                        let mut ts = TransitionState::default();
-                        ts.add_transitions(transitions.clone());
-                        write!(o, " T{}", translist_tok(ts.transitions.iter())).unwrap();
-                    } else {
-                        o.push_str(" T*");
-                    }
-                    st.apply_transition(transitions);
                 }
                 OpT::Drain(v) => {
-                    let mut transitions = Vec::new();
-                    let mut bals = Vec::new();
-                    for a in v {
-                        let acc = st.load_cache_account(addr(*a)).unwrap();
-                        let (bal, t) = acc.drain_balance();
-                        bals.push(bal);
-                        transitions.push((addr(*a), t));
-                    }
+                    let saved = if observe { Some(st.transition_state.replace(TransitionState::default())) } else { None };
+                    let bals = DatabaseCommitExt::drain_balances(&mut st, v.iter().map(|a| addr(*a))).unwrap();
                     write!(o, " D[{}]", bals.iter().map(|b| format!("{b:x}")).collect::<Vec<_>>().join(",")).unwrap();
-                    if observe {
-                        // same address twice in one drain: the map keeps the merged transition
-                        let mut ts = TransitionState::default();
-                        ts.add_transitions(transitions.clone());
-                        o.push_str(&translist_tok(ts.transitions.iter()));
-                    } else {
-                        o.push('*');
+                    match saved {
+                        Some(saved) => {
+                            let produced = st.transition_state.take().unwrap();
+                            st.transition_state = saved;
+                            o.push_str(&translist_tok(produced.transitions.iter()));
+                            st.apply_transition(produced.transitions);
+                        }
+                        None => o.push('*'),
                     }
-                    st.apply_transition(transitions);
                 }
                 // the reference for reads is the `Database` interface the EVM executes against
                 OpT::Basic { a, .. } => {
